@@ -2518,6 +2518,10 @@ struct Explorer {
         if (p != v->producer.end()) {
           if (!v->stmts[p->second].desc.empty() && !verbose) desc = v->stmts[p->second].desc;
           for (auto& o : v->stmts[p->second].outs) outs += o + " ";
+          // outputs its dyndep file gave the statement (loaded before the command could start) follow the declared ones
+          if (!v->stmts[p->second].dyndep.empty())
+            for (auto& o : c.spec.outs)
+              if (find(v->stmts[p->second].outs.begin(), v->stmts[p->second].outs.end(), o) == v->stmts[p->second].outs.end()) outs += o + " ";
         }
       }
       string vis = StripAnsi(c.output);
